@@ -97,6 +97,10 @@ pub enum Op {
     SetWhileBorrowed(u8, bool, u32),
     /// `try_get_value::<T>()` while an exclusive guard on the innermost `T` is alive
     GetWhileBorrowedMut(u8),
+    /// presence asked while an exclusive guard on the innermost `T` is alive: `contains` (0),
+    /// `requirements().require` (1), `contains_at_top` (2), `find` (3) - a borrow does not make
+    /// a state absent
+    PresentWhileBorrowedMut(u8, u8),
     /// `try_get_multiple_mut::<(Ta, Tb[, Tc])>()` for entry `entry` of the tuple catalogue, then
     /// `vals` written through the references: every element resolves on its own to the
     /// innermost scope holding its type
@@ -328,6 +332,17 @@ impl Model {
                     Ret::NotFound
                 }
             }
+            Op::PresentWhileBorrowedMut(t, which) => match which {
+                1 => {
+                    if self.find(*t).is_some() {
+                        Ret::Unit
+                    } else {
+                        Ret::RequiredMissing
+                    }
+                }
+                2 => Ret::Bool(self.scopes.last().map(|m| m.contains_key(t)).unwrap_or(false)),
+                _ => Ret::Bool(self.find(*t).is_some()),
+            },
             Op::MultiWrite { entry, vals } => {
                 let tuple = multi_entry(*entry).0;
                 let mut sorted = tuple.to_vec();
@@ -620,16 +635,39 @@ pub fn apply_real(op: &Op, st: &mut St) -> Ret {
             Ret::Unit
         }
         Op::SetWhileBorrowed(t, excl, v) => with_ty!(*t, T => {
+            // `set_value` is a quiet setter: a panic is an answer the model never gives
+            let set = |st: &St| match guarded(|| st.set_value::<T>(*v)) {
+                Ok(o) => Ret::Opt(o.map(|o| o as u64)),
+                Err(_) => Ret::Panicked,
+            };
             if *excl {
                 match st.try_borrow_mut::<T>() {
-                    Ok(_guard) => Ret::Opt(st.set_value::<T>(*v).map(|o| o as u64)),
-                    Err(_) => Ret::Opt(st.set_value::<T>(*v).map(|o| o as u64)),
+                    Ok(_guard) => set(st),
+                    Err(_) => set(st),
                 }
             } else {
                 match st.try_borrow::<T>() {
-                    Ok(_guard) => Ret::Opt(st.set_value::<T>(*v).map(|o| o as u64)),
-                    Err(_) => Ret::Opt(st.set_value::<T>(*v).map(|o| o as u64)),
+                    Ok(_guard) => set(st),
+                    Err(_) => set(st),
                 }
+            }
+        }),
+        Op::PresentWhileBorrowedMut(t, which) => with_ty!(*t, T => {
+            let ask = |st: &St| match guarded(|| match *which {
+                1 => match st.requirements().require::<EP, T>() {
+                    Ok(()) => Ret::Unit,
+                    Err(e) => state_err(&e, false),
+                },
+                2 => Ret::Bool(st.contains_at_top::<T>()),
+                3 => Ret::Bool(st.find::<T>().is_ok()),
+                _ => Ret::Bool(st.contains::<T>()),
+            }) {
+                Ok(r) => r,
+                Err(_) => Ret::Panicked,
+            };
+            match st.try_borrow_mut::<T>() {
+                Ok(_guard) => ask(st),
+                Err(_) => ask(st),
             }
         }),
         Op::MultiWrite { entry, vals } => match (multi_entry(*entry).1)(st, vals) {
@@ -727,13 +765,11 @@ impl<'a> OpGen<'a> {
                     let vals = (0..n).map(|_| self.val()).collect();
                     Op::MultiWrite { entry, vals }
                 }
-                99 => {
-                    if self.g.chance(0.5) {
-                        Op::SetWhileBorrowed(t, self.g.chance(0.5), self.val())
-                    } else {
-                        Op::GetWhileBorrowedMut(t)
-                    }
-                }
+                99 => match self.g.below(3) {
+                    0 => Op::SetWhileBorrowed(t, self.g.chance(0.5), self.val()),
+                    1 => Op::GetWhileBorrowedMut(t),
+                    _ => Op::PresentWhileBorrowedMut(t, self.g.below(4) as u8),
+                },
                 _ => continue,
             };
         }
